@@ -30,7 +30,7 @@ func c26Comp(b []byte) []byte {
 		return append(b, '.', '.')
 	}
 	c := verif_nondet_u8()
-	verif_assume(c == 'a' || c == 'o' || c == 'l' || c == 'k' || c == 'd' || c == 'f' || c == 's' || c == 'n' || c == 'm' || c == '.')
+	verif_assume(c == 'a' || c == 'o' || c == 'l' || c == 'k' || c == 'd' || c == 'f' || c == 's' || c == 'n' || c == 'm' || c == 'g' || c == '.')
 	return append(b, c)
 }
 
@@ -45,13 +45,22 @@ func c26Path(root string) string {
 	return string(b)
 }
 
+// the reachability witness only has to reach a performed operation: one tree, one allow-list form
+var c26WitnessMode bool
+
 func c26Tree(root string) {
 	verif_fs_mkdir(root + "/a/d")
 	verif_fs_write(root+"/a/f", []byte{7})
 	verif_fs_mkdir(root + "/o")
 	verif_fs_write(root+"/o/s", c26Secret)
-	switch verif_choose(4) {
+	tree := 0
+	if !c26WitnessMode {
+		tree = verif_choose(5)
+	}
+	switch tree {
 	case 0:
+	case 4:
+		verif_fs_symlink(root+"/o/zz", root+"/a/g") // dangling link: its target outside does not exist (yet)
 	case 1:
 		verif_fs_symlink(root+"/o", root+"/a/l") // link as a parent directory of the request
 	case 2:
@@ -62,6 +71,9 @@ func c26Tree(root string) {
 }
 
 func c26Allowed(root string) []string {
+	if c26WitnessMode {
+		return []string{root + "/a"}
+	}
 	switch verif_choose(4) {
 	case 3:
 		// the allowed directory is itself reached through a link: its real location is r/a
@@ -76,6 +88,7 @@ func c26Allowed(root string) []string {
 }
 
 func c26Op(witness bool) {
+	c26WitnessMode = witness
 	root := verif_fs_path("r")
 	c26Tree(root)
 	h := NewStreamHandler(StreamConfig{Enabled: true, AllowedPaths: c26Allowed(root)})
